@@ -2,7 +2,8 @@
 
 Model:   MC_Reader over all token-level files and ALL byte strings <= RawLen over an 11-byte
          alphabet: Total (the specification has exactly the outcomes yield / done /
-         parse_error), Progress (input strictly shrinks: termination), ErrRange.
+         parse_error), Progress (input strictly shrinks), Terminates (liveness under weak
+         fairness), ErrRange.
 Dir. A:  random byte strings; 1-3 corruptions (catalogue of bad option values, byte flips,
          cuts, deletions, newline-style changes, duplicated options, non-ASCII in headers,
          dropped/duplicated lines) of canonical and foreign files.
@@ -26,7 +27,7 @@ def describe(c):
 def run(run, replay=None):
     rng = random.Random(run.seed)
     quick = run.tier == 'quick'
-    _rcommon.mc_reader(run, ['Total', 'ErrRange', 'PosOK'], quick=(2, 4), thorough=(3, 5))
+    _rcommon.mc_reader(run, ['Total', 'ErrRange', 'PosOK'], props=('Progress', 'Terminates'), quick=(2, 4), thorough=(3, 5), fair=True)
     cat = Catalog()
     bases = []
     paths = _rcommon.legal_paths(run, 7)
